@@ -1,2 +1,74 @@
-From SV Require Import Engine.
-Theorem C12_placeholder : True. Proof. exact I. Qed.
+(* C12 - Time to beat conversion inverts beat to time on the tick grid.  Statements only.
+   PARTIAL: local laws, valid for ANY state list sorted by time (which every timing data of the domain
+   produces, C11_monotone_states): a time strictly after a state and strictly before everything that
+   follows it.  Times that coincide exactly with state times (where the event tag decides, and where the
+   repaired search matters) and the global B+/B- characterisation are covered by the correspondence on
+   the dyadic family (exact floats) - see DESIGN.md. *)
+From Coq Require Import List ZArith QArith Bool Sorting.Sorted.
+From SV Require Import Sx Beat Engine Proofs.EngineFacts.
+Import ListNotations.
+Open Scope Q_scope.
+
+(* strictly inside a stop or delay the answer is the paused beat, for every tag *)
+Theorem C12_in_pause : forall pre s post d t q,
+  times_sorted (pre ++ s :: post) -> is_pause_tag (s_tag s) = true ->
+  s_time s < t -> (forall x, In x post -> t < s_time x) ->
+  fst (beat_at_raw (pre ++ s :: post) d t q) = s_beat s.
+Proof. exact beat_at_in_pause. Qed.
+Print Assumptions C12_in_pause.
+
+(* the inverse on the tick grid: the time the engine assigns to "k ticks past state s" maps back to exactly that beat *)
+Theorem C12_inverse : forall pre s post d q (k : Z),
+  times_sorted (pre ++ s :: post) -> is_pause_tag (s_tag s) = false -> 0 < s_bpm s -> (0 < k)%Z ->
+  let t := s_time s + (inject_Z k / 48) * 60 / s_bpm s in
+  (forall x, In x post -> t < s_time x) ->
+  fst (beat_at_raw (pre ++ s :: post) d t q) == s_beat s + inject_Z k / 48.
+Proof. exact beat_at_inverse. Qed.
+Print Assumptions C12_inverse.
+
+(* every other time: the state's beat plus the elapsed beats rounded to the nearest tick ... *)
+Theorem C12_between : forall pre s post d t q,
+  times_sorted (pre ++ s :: post) -> is_pause_tag (s_tag s) = false ->
+  s_time s < t -> (forall x, In x post -> t < s_time x) ->
+  fst (beat_at_raw (pre ++ s :: post) d t q) == s_beat s + tick_round ((t - s_time s) / 60 * s_bpm s).
+Proof. exact beat_at_between. Qed.
+Print Assumptions C12_between.
+
+(* ... hence tick-aligned whenever the events are *)
+Theorem C12_tick_aligned : forall pre s post d t q (kb : Z),
+  times_sorted (pre ++ s :: post) -> s_time s < t -> (forall x, In x post -> t < s_time x) ->
+  s_beat s == inject_Z kb / 48 ->
+  exists k : Z, fst (beat_at_raw (pre ++ s :: post) d t q) == inject_Z k / 48.
+Proof. exact beat_at_tick_aligned. Qed.
+Print Assumptions C12_tick_aligned.
+
+(* rounding to the tick does not depend on how the rational is written, and fixes every tick *)
+Theorem C12_round_well_defined : forall a b, a == b -> tick_round a == tick_round b.
+Proof. exact tick_round_compat. Qed.
+Print Assumptions C12_round_well_defined.
+
+(* the search ignores how many states precede: the answer is determined by the selected state alone *)
+Theorem C12_prefix_independent : forall pre pre' s post d t q,
+  times_sorted (pre ++ s :: post) -> times_sorted (pre' ++ s :: post) ->
+  s_time s < t -> (forall x, In x post -> t < s_time x) ->
+  fst (beat_at_raw (pre ++ s :: post) d t q) == fst (beat_at_raw (pre' ++ s :: post) d t q).
+Proof.
+  intros pre pre' s post d t q H H' Ht Hp. destruct (is_pause_tag (s_tag s)) eqn:P.
+  - rewrite (beat_at_in_pause pre s post d t q H P Ht Hp), (beat_at_in_pause pre' s post d t q H' P Ht Hp). reflexivity.
+  - rewrite (beat_at_between pre s post d t q H P Ht Hp), (beat_at_between pre' s post d t q H' P Ht Hp). reflexivity.
+Qed.
+Print Assumptions C12_prefix_independent.
+
+(* F8 regression inside Coq: BPMS 0=120 (+ redundant rows), STOPS 10=1, WARPS 8=4: beat_at(5.0) = 12 either way *)
+Definition td0 (extra : list (Q * Q)) : tdata :=
+  {| td_bpms := (0, 120) :: extra; td_stops := [(10, 1)]; td_delays := []; td_warps := [(8, 4)]; td_offset := 0 |}.
+Definition beat_at_of (td : tdata) (t : Q) (tag : Z) : Q :=
+  match states td with
+  | EOk sts => fst (beat_at_raw sts (hd {| s_beat := 0; s_val := 0; s_tag := 0; s_time := 0; s_bpm := 1; s_warp := false |} sts) t tag)
+  | _ => -1 end.
+Example C12_example :
+  Qeq_bool (beat_at_of (td0 []) 5 tSTOP) 12 && Qeq_bool (beat_at_of (td0 [(1, 120); (2, 120)]) 5 tSTOP) 12 &&
+  Qeq_bool (beat_at_of (td0 [(1, 120); (2, 120); (3, 120)]) 5 tSTOP) 12 &&
+  Qeq_bool (beat_at_of (td0 []) 4 tWARP) 8 && Qeq_bool (beat_at_of (td0 []) 4 tSTOP) 10 &&
+  Qeq_bool (beat_at_of (td0 []) (9 # 2) tSTOP) 10 = true.
+Proof. vm_compute. reflexivity. Qed.
